@@ -75,6 +75,10 @@ type op struct {
 	IfNotExist bool // opAdd: go through AddIfNotExist
 	CloseAdd   bool // call Close on an add-mode encoder too (documented no-op)
 	ViaItem    bool // opRead: GetCurrentItem instead of GetCurrentValue
+	// opUpdate through the cursor: FindOne, read Decode values of the entry through its decoder (-1 = none, no read),
+	// then UpdateCurrentValue - the read-modify-write of the current item
+	Cursor bool
+	Decode int
 }
 
 type txn struct {
@@ -104,6 +108,9 @@ func (p program) canon() string {
 			}
 			if o.ViaItem {
 				b.WriteString(",item")
+			}
+			if o.Cursor {
+				fmt.Fprintf(&b, ",cursor,decoded=%d", o.Decode)
 			}
 			for _, v := range o.Vals {
 				b.WriteString(" " + v.canon())
@@ -185,6 +192,10 @@ func genProgram(t *rapid.T, rec *stats.Rec) program {
 					rt.changes++
 				}
 			case opUpdate:
+				if present(o.Key) && rapid.IntRange(0, 2).Draw(t, "viaCursor") == 0 {
+					o.Cursor = true
+					o.Decode = rapid.IntRange(-1, len(entries[o.Key])).Draw(t, "decodeFirst")
+				}
 				o.Vals = genEntry(t, &budget)
 				if present(o.Key) {
 					entries[o.Key] = o.Vals
@@ -620,7 +631,32 @@ func (e *env) run(p program) (map[string]bool, bool, error) {
 				rt.changes++
 				tracked = true
 			case opUpdate:
-				enc, err := s.Update(e.ctx, o.Key)
+				var enc *sd.Encoder[string]
+				var err error
+				if o.Cursor && present {
+					labels["updateThroughCursor"] = true
+					ok, ferr := s.FindOne(e.ctx, o.Key)
+					if ferr != nil || !ok {
+						return nil, false, fmt.Errorf("%s: FindOne = %v, %v", at, ok, ferr)
+					}
+					if o.Decode >= 0 {
+						dec, derr := s.GetCurrentValue(e.ctx)
+						if derr != nil || dec == nil {
+							return nil, false, fmt.Errorf("%s: GetCurrentValue: %v", at, derr)
+						}
+						for i := 0; i < o.Decode && i < len(old); i++ {
+							if _, derr := decodeNext(dec, old[i].Kind); derr != nil {
+								return nil, false, fmt.Errorf("%s: reading value #%d before the update: %v", at, i, derr)
+							}
+						}
+						if o.Decode > 0 {
+							labels["updateThroughCursorAfterReading"] = true
+						}
+					}
+					enc, err = s.UpdateCurrentValue(e.ctx)
+				} else {
+					enc, err = s.Update(e.ctx, o.Key)
+				}
 				if err != nil {
 					return nil, false, fmt.Errorf("%s: %v", at, err)
 				}
@@ -774,7 +810,7 @@ func TestC31_Programs(t *testing.T) {
 var labelOrder = []string{
 	"bigData", "mediumData", "multiTxn", "multiNode", "longEntry", "emptyStoreVerified",
 	"add", "addIfNotExistOnExisting", "update", "updateMissingKey", "upsertNew", "upsertExisting",
-	"updateShorter", "updateLonger", "updateSameCount", "updateBesideOtherEntries",
+	"updateShorter", "updateLonger", "updateSameCount", "updateBesideOtherEntries", "updateThroughCursor", "updateThroughCursorAfterReading",
 	"remove", "removeMultiChunk", "removeBesideOtherEntries", "removeMissingKey", "removeMissingKeyReportedTrue",
 	"encoderForMissingKey",
 	"readInWritingTxn", "rereadAfterChange", "readMissingKey", "readSkippedForListedFinding", "removeOnlyTxn",
